@@ -14,8 +14,8 @@ RULE = ("scenes from the seed, each built in all three cyclic orientations throu
         "steps: 4..8 cells per axis (pairwise different where possible), per face none/periodic/pec/pmc/pml (PML "
         "thickness 2..3, optional kappa grading), uniform or non-uniform grid (widths rotated), 1..2 sources out of "
         "UniformPlaneSource / GaussianPlaneSource (every propagation axis, both directions, oblique transverse "
-        "polarisation vector rotated) and PointDipoleSource (electric/magnetic, polarisation index and position "
-        "rotated) with CW or pulse profile, FieldDetector and PoyntingFluxDetector without exact interpolation "
+        "polarisation vector rotated, non-zero azimuth_angle / elevation_angle of both signs: unchanged by the relabelling) and PointDipoleSource (electric/magnetic, polarisation index and position "
+        "rotated, tilted by azimuth/elevation as well) with CW or pulse profile, FieldDetector and PoyntingFluxDetector without exact interpolation "
         "(sub-boxes, reduce_volume on/off, keep_all_components, fixed_propagation_axis), materials overwritten by "
         "rotated random arrays (isotropic, diagonal, or full 9-component tensors rotated as R T R^T; optional sigma_E / "
         "sigma_H, incl. full 9-component conductivity tensors with all off-diagonals non-zero next to full inv_eps / inv_mu) or built through the public Material API and placed as UniformMaterialObject boxes (no overwrite): "
@@ -28,7 +28,9 @@ RULE = ("scenes from the seed, each built in all three cyclic orientations throu
         "with the model on the arrays place_objects produced); a tiny scene with full-tensor Materials with a lone "
         "off-diagonal entry in permittivity, sigma_E, sigma_H. Oracle: max |rot^-r(result_r) "
         "- result_0| <= 1e-9 * max|result| for E, H and every raw record (run_fdtd resets the fields, so levels are set by the sources). K: forward() of each orientation of "
-        "PML-free scenes (tiers <= 3) vs model fwd / rotfwd, Poynting record vs rotpoynting. non-trivial = every scene "
+        "PML-free scenes (tiers <= 3) vs model fwd / rotfwd, Poynting record vs rotpoynting; exhaustively over the three "
+        "axes get_oriented_transverse_axes / get_transverse_axes vs the model (hvp / ascending) and the cyclic relabelling of "
+        "tilted_polarization_vectors (random azimuth/elevation of both signs, both directions, E- or H-given polarisation). non-trivial = every scene "
         "(all have sources and a non-cubic shape or distinct faces).")
 
 FACES = Y.FACES
@@ -175,6 +177,12 @@ def gen_case(rng, thorough, force=None):
             s["use_h"] = rng.chance(0.25)
         else:
             s["pol"] = rng.randint(0, 2)
+        # tilt: azimuth / elevation (degrees) rotate polarisation and wave vector about the (horizontal, vertical,
+        # propagation) = (a+1, a+2, a) triple of the source; a cyclic relabelling shifts the whole triple, so the ANGLES stay
+        # the same in every orientation — any axis-dependent choice of the triple shows up as broken equivariance
+        tilt = force.get("tilt", rng.chance(0.6))
+        s["azimuth"] = rng.uniform(8.0, 35.0) * rng.choice([1.0, -1.0]) if tilt else 0.0
+        s["elevation"] = rng.uniform(8.0, 35.0) * rng.choice([1.0, -1.0]) if tilt else 0.0
         srcs.append(s)
     c["sources"] = srcs
     dets = []
@@ -346,7 +354,8 @@ def build(c):
             shp = [None, None, None]
             shp[ax] = 1
             kw2 = dict(partial_grid_shape=tuple(shp), wave_character=wave, direction=s["direction"], temporal_profile=prof,
-                       static_amplitude_factor=s["amp"], name=f"src{i}")
+                       static_amplitude_factor=s["amp"], name=f"src{i}", azimuth_angle=s.get("azimuth", 0.0),
+                       elevation_angle=s.get("elevation", 0.0))
             if s.get("use_h"):
                 kw2["fixed_H_polarization_vector"] = tuple(s["pol"])
             else:
@@ -356,7 +365,8 @@ def build(c):
         else:
             o = f.PointDipoleSource(partial_grid_shape=(1, 1, 1), wave_character=wave, polarization=s["pol"],
                                     source_type="electric" if s["kind"] == "dipole_e" else "magnetic",
-                                    temporal_profile=prof, static_amplitude_factor=s["amp"], name=f"src{i}")
+                                    temporal_profile=prof, static_amplitude_factor=s["amp"], name=f"src{i}",
+                                    azimuth_angle=s.get("azimuth", 0.0), elevation_angle=s.get("elevation", 0.0))
             cs.append(place(o, (0, 1, 2), s["pos"]))
         objs.append(o)
     for i, q in enumerate(c["detectors"]):
@@ -633,14 +643,14 @@ def forced(rng):
     p3 = rng.shuffle([("pec", "pmc"), ("periodic", "periodic"), rng.choice([("none", "pmc"), ("pec", "none"), ("pmc", "pmc")])])
     p4 = rng.shuffle([("periodic", "periodic"), ("none", "none"), rng.choice([("pec", "none"), ("none", "pmc")])])
     return [
-        dict(pairs=p1, sources=["uniform", "dipole_e"], src_axis=[a, None], src_dir=["+", None], mat_mode="arrays",
+        dict(pairs=p1, sources=["uniform", "dipole_e"], src_axis=[a, None], src_dir=["+", None], mat_mode="arrays", tilt=True,
              eps_tier=9, sig_e_full=True, mu_tier=rng.choice([0, 3]), sig_h_full=False, nonuniform=False),
-        dict(pairs=p2, sources=["gauss", rng.choice(["dipole_e", "dipole_m"])], src_axis=[b, None], src_dir=["-", None],
+        dict(pairs=p2, sources=["gauss", rng.choice(["dipole_e", "dipole_m"])], src_axis=[b, None], src_dir=["-", None], tilt=True,
              mat_mode="arrays", eps_tier=rng.choice([1, 3]), sig_e_full=False, mu_tier=9, sig_h_full=True),
         # materials through the public Material API, diagonal tier (so the model comparison applies): a box with diagonal
         # permittivity and an electric conductivity whose ONLY non-zero entry is one diagonal component (which one: from the
         # seed; the three orientations put it on xx, yy and zz), and the magnetic analogue
-        dict(pairs=p3, sources=["dipole_e", "dipole_m"], mat_mode="boxes", boxes=["diag_sig_e", "diag_sig_h"],
+        dict(pairs=p3, sources=["dipole_e", "dipole_m"], mat_mode="boxes", boxes=["diag_sig_e", "diag_sig_h"], tilt=True,
              sig_e_full=False, sig_h_full=False, nonuniform=rng.chance(0.5), init_fields=True),
         # … and full-tensor Materials with a lone off-diagonal entry (permittivity, sigma_E, sigma_H), tiny scene
         dict(pairs=p4, sources=[rng.choice(["dipole_e", "dipole_m"])], mat_mode="boxes",
@@ -659,6 +669,8 @@ def counters(c):
         d["pml_kappa_graded"] = True
     for s in c["sources"]:
         d["src_" + s["kind"]] = True
+        if s.get("azimuth", 0.0) != 0.0:
+            d["src_" + s["kind"] + "_tilted"] = True
         if s["kind"] in ("uniform", "gauss"):
             d[f"plane_axis{s['axis']}{s['direction']}"] = True
     for q in c["detectors"]:
@@ -686,7 +698,44 @@ def one_scene(ctx, c0, sample=False):
         ctx.dist.setdefault("model_compared", {"True": 0})["True"] += 1
 
 
+def k_axes(ctx):
+    """exhaustive over the three axes: the oriented-axes helpers vs the model, and the polarisation / wave-vector triple of
+    `tilted_polarization_vectors` (what every plane source and the Gaussian overlap detector build their tilt from) must be
+    relabelled cyclically when axis and polarisation are"""
+    j = Y.J()
+    jnp = j["jnp"]
+    from fdtdx.core.axis import get_oriented_transverse_axes, get_transverse_axes
+    from fdtdx.core.misc import tilted_polarization_vectors
+    for a in range(3):
+        ctx.expect_equal("get_oriented_transverse_axes + axis vs model hvp", {"axis": a},
+                         " ".join(str(int(x)) for x in (*get_oriented_transverse_axes(a), a)), ctx.driver.ask(f"hvp {a}"))
+        ctx.expect_equal("get_transverse_axes vs model ascending", {"axis": a},
+                         " ".join(str(int(x)) for x in get_transverse_axes(a)), ctx.driver.ask(f"ascending {a}"))
+    for _ in range(ctx.scale(4, 40)):
+        az, el = (ctx.rng.uniform(0.1, 0.7) * ctx.rng.choice([1.0, -1.0]) for _ in range(2))
+        th = ctx.rng.uniform(0.0, 6.28)
+        d = ctx.rng.choice(["+", "-"])
+        use_h = ctx.rng.chance(0.3)
+        outs = []
+        for a in range(3):
+            pol = [0.0, 0.0, 0.0]
+            pol[(a + 1) % 3], pol[(a + 2) % 3] = float(np.cos(th)), float(np.sin(th))
+            kw = {"fixed_H_polarization_vector" if use_h else "fixed_E_polarization_vector": tuple(pol)}
+            e, h, k = tilted_polarization_vectors(direction=d, propagation_axis=a, azimuth_radians=az, elevation_radians=el,
+                                                  dtype=jnp.float64, **kw)
+            vec = np.stack([np.asarray(e), np.asarray(h), np.asarray(k)])          # (3 vectors, 3 components)
+            for _ in range((3 - a) % 3):                                         # back to the labelling of axis 0
+                vec = vec[:, [2, 0, 1]]
+            outs.append(vec)
+        case = {"tilted_polarization_vectors": True, "azimuth": az, "elevation": el, "direction": d, "theta": th, "use_h": use_h}
+        for a in (1, 2):
+            ctx.expect_close(f"tilted_polarization_vectors: axis {a} relabelled back vs axis 0", case, outs[a].ravel(), outs[0].ravel(),
+                             tol=1e-12)
+        ctx.case(nontrivial=("tilt", round(az, 6), round(el, 6), d), tilt_helper=True)
+
+
 def run(ctx):
+    k_axes(ctx)
     cases = [gen_case(ctx.rng, ctx.thorough, f) for f in forced(ctx.rng)]
     n = ctx.scale(4, 24)
     while len(cases) < n:
